@@ -240,7 +240,7 @@ def Allowed (p : ProfAcc) (r : Req) : Prop :=
 access settings: blocked ASN or subnet not overridden by an allowed one, or a blocked-name rule. -/
 def Rejected (g : Global) (r : Req) : Prop :=
   (∃ n ∈ g.nets, InSubnet n r.addr) ∨ NameBlocked g.eng r ∨
-    ∃ p, r.dev = .ok (some p) ∧
+    ∃ p a, r.dev = .ok (some p) a ∧
       ((¬ Allowed p r ∧ (AsnIn p.blockedASN r.asn ∨ ∃ n ∈ p.blockedNets, InSubnet n r.addr)) ∨
         NameBlocked p.eng r)
 
